@@ -211,7 +211,7 @@ func composeStage(b *strings.Builder, c cmpCfg, s int) {
 }
 
 func composeCfgFile(n int) []byte {
-	return []byte(fmt.Sprintf("CONSTANTS\n  N = %d\n  MaxCmd = 3\n  MaxVar = 2\n  NCtx = %d\n  Nesting = TRUE\n  HookKinds = {\"none\", \"ok\", \"fail\"}\nINIT TInit\nNEXT TNext\nCONSTRAINT HW\nINVARIANTS CommandsAfterDependencies StopsAtFailure FinalOK RunOnlyWhileStageRunning UpBeforeUse DownAfterAll OneUpAtATime NothingRunsAtReturn\nPOSTCONDITION PostCond\nCHECK_DEADLOCK FALSE\n", n, cmpNCtx))
+	return []byte(fmt.Sprintf("CONSTANTS\n  N = %d\n  MaxCmd = 3\n  MaxVar = 2\n  NCtx = %d\n  Nesting = TRUE\n  AtomicLaunch = TRUE\n  HookKinds = {\"none\", \"ok\", \"fail\"}\nINIT TInit\nNEXT TNext\nCONSTRAINT HW\nINVARIANTS CommandsAfterDependencies StopsAtFailure FinalOK RunOnlyWhileStageRunning UpBeforeUse DownAfterAll OneUpAtATime NothingRunsAtReturn NoDoubleLaunch\nPOSTCONDITION PostCond\nCHECK_DEADLOCK FALSE\n", n, cmpNCtx))
 }
 
 var reJobTag = regexp.MustCompile(`# ([sc])(\d+)-(up|down|cb|ca|tb|ta|cmd)\s*$`)
@@ -230,6 +230,11 @@ func ComposeCheck(env *core.Env, rep *core.Report, k int, models ...string) map[
 		w, to := 4, 10*time.Minute
 		if strings.HasSuffix(m, "3") {
 			w, to = 8, 30*time.Minute
+		}
+		if strings.HasSuffix(m, "_pinned") {
+			mc := core.MustFail(env, core.TLCOpts{Module: "Taskctl", Config: "Taskctl_" + m + ".cfg", Workers: w, Timeout: to})
+			info["Taskctl_"+m] = map[string]interface{}{"distinct": mc.Distinct, "generated": mc.Generated, "result": "negative control (the status of a stage is read, then written: two nested loops over one included pipeline): " + mc.Violated + " violated"}
+			continue
 		}
 		mc := core.MustHold(env, core.TLCOpts{Module: "Taskctl", Config: "Taskctl_" + m + ".cfg", Workers: w, Timeout: to})
 		info["Taskctl_"+m] = map[string]interface{}{"distinct": mc.Distinct, "generated": mc.Generated, "result": "CommandsAfterDependencies, StopsAtFailure, UpBeforeUse, DownAfterAll, OneUpAtATime, NothingRunsAtReturn, FinalOK, RunOnlyWhileStageRunning, Terminates hold"}
